@@ -44,6 +44,10 @@ func (mh *MessageHandler) FromMsgReader(_ peer.ID, r msgio.Reader) (message.Grap
 	}
 
 	ipldGSM, err := ipldbind.BindnodeRegistry.TypeFromBytes(msg, (*ipldbind.GraphSyncMessageRoot)(nil), dagcbor.Decode)
+	if err == io.EOF {
+		// the frame was read completely; EOF here means its CBOR content is cut short
+		err = io.ErrUnexpectedEOF
+	}
 	if err != nil {
 		return message.GraphSyncMessage{}, err
 	}
